@@ -185,6 +185,25 @@ def eqe_roundtrip(c, rec):
     dv = float(np.linalg.norm(via2[3:] - s[3:]))
     if dp > max(tp, tp2) or dv > max(tv, tv2):
         raise Violation("eqe2coe_path", f"coe2eci(eqe2coe(eci2eqe(state))) differs by {dp:.3e} km, {dv:.3e} km/s (retro={retro}) for {c}")
+    # the element classes wrap the same conversions and must give the same orbit, whichever constructor is used
+    from resonaate.physics.orbits.elements import ClassicalElements, EquinoctialElements
+
+    for label, obj in (("EquinoctialElements.fromECI", EquinoctialElements.fromECI(s, retro=retro)),
+                       ("EquinoctialElements.fromCOE", EquinoctialElements.fromCOE(c["a"], c["e"], c["i"], c["raan"], c["argp"], c["nu"], retro=retro)),
+                       ("EquinoctialElements(...)", EquinoctialElements(*eqe, retro=retro)),
+                       ("ClassicalElements.fromECI", ClassicalElements.fromECI(s)),
+                       ("ClassicalElements.fromEQE", ClassicalElements.fromEQE(*eqe, retro=retro))):
+        got = np.asarray(obj.toECI(), dtype=float)
+        dp = float(np.linalg.norm(got[:3] - s[:3]))
+        dv = float(np.linalg.norm(got[3:] - s[3:]))
+        ep, ev = 0.0, 0.0
+        if label == "ClassicalElements.fromECI":
+            # same arccos resolution limit as in coe_roundtrip (the class wraps eci2coe)
+            if any(min(abs(x) % PI, PI - abs(x) % PI) < 1e-4 for x in (obj.inc, obj.raan, obj.argp, obj.true_anomaly)):
+                ep = 4 * 3e-8 * c["a"] * (1 + c["e"])
+                ev = 4 * 3e-8 * math.sqrt(kepler.MU / (c["a"] * (1 - c["e"]))) * 2
+        if dp > max(tp, tp2) + ep or dv > max(tv, tv2) + ev:
+            raise Violation("element_class", f"{label}(retro={retro}).toECI() differs from the orbit's state by {dp:.3e} km, {dv:.3e} km/s for {c}")
 
 
 # ------------------------------------------------------------------------------------------------
